@@ -342,24 +342,34 @@ def value_predicates(op, names, facts, lres, rres, ldiff, Lroot):
             # `find <link> -mindepth 1` without -L does not enter a start point that is a symlink to a directory;
             # the local walk (scandir of the top) does
             return "C24/walk-top-symlink-not-entered"
-        if rok and rv == [] and lv and op["follow_symlinks"]:
-            # `find -L` exits 1 when a link cannot be followed for a reason other than ENOENT (a path component of
-            # its target is a regular file: ENOTDIR); walk swallows the error and yields nothing at all
-            def _enotdir(q):
+        if rok and lv == [] and facts["self"] in ("file", "lf", "dangling") and rv == [[("<R>/" + rel) if rel else "<R>", [], []]]:
+            # `find <non-directory> -mindepth 1 -maxdepth 1` prints nothing and exits 0: walk yields one empty entry for a
+            # path that is not a directory, the local walk (scandir fails) yields nothing
+            return "C24/walk-non-directory-yields-empty-entry"
+        if rok and isinstance(rv, list) and rv != lv:
+            # model of the two listed mechanisms on top of the local result:
+            #  (1) with follow_symlinks `find -L` exits 1 for a directory that contains a link it cannot follow for a
+            #      reason other than ENOENT (ENOTDIR, ELOOP); walk swallows the error: that directory and everything
+            #      below it is missing;
+            #  (2) `-type f` never lists symlinks (follow_symlinks=False) / dangling symlinks (follow_symlinks=True)
+            def _unfollowable(q):
                 try:
                     os.stat(q)
-                except NotADirectoryError:
-                    return True
-                except OSError:
+                except FileNotFoundError:
                     return False
+                except OSError:
+                    return True
                 return False
 
-            if os.path.isdir(p) and any(os.path.islink(os.path.join(p, n)) and _enotdir(os.path.join(p, n)) for n in os.listdir(p)):
-                return "C24/walk-find-error-yields-nothing"
-        if rok and isinstance(rv, list) and rv != lv:
-            exp = []
-            removed = 0
+            exp, removed, failed = [], 0, []
             for d, dirs, files in lv:
+                dd = d.replace("<R>", Lroot)
+                if op["follow_symlinks"] and os.path.isdir(dd) and any(
+                        os.path.islink(os.path.join(dd, n)) and _unfollowable(os.path.join(dd, n)) for n in os.listdir(dd)):
+                    failed.append(d)
+            for d, dirs, files in lv:
+                if any(d == f or d.startswith(f + "/") for f in failed):
+                    continue
                 dd = d.replace("<R>", Lroot)
                 keep = []
                 for f in files:
@@ -369,8 +379,11 @@ def value_predicates(op, names, facts, lres, rres, ldiff, Lroot):
                     else:
                         keep.append(f)
                 exp.append([d, dirs, keep])
-            if removed and sorted(exp) == rv:
-                return "C24/walk-omits-symlinks"
+            if sorted(exp) == rv:
+                if failed:
+                    return "C24/walk-find-error-yields-nothing"
+                if removed:
+                    return "C24/walk-omits-symlinks"
     if t == "mkdir" and lok and rok and len(ldiff) == 1:
         k, a, b = ldiff[0]
         if k == rel and a and b and a[0] == "dir" and b[0] == "dir" and a[1] == (op["mode"] & ~UMASK) and b[1] == op["mode"] \
@@ -619,6 +632,15 @@ DIRECTED = [
     _d(_B, [_D("<0>"), _F("<0>/<1>"), ["rawlink", "<0>/<2>", "<1>/nope"], _F("<0>/<3>")],
        [{"op": "walk", "path": "<0>", "top_down": True, "follow_symlinks": True},
         {"op": "walk", "path": "<0>", "top_down": True, "follow_symlinks": False}]),
+    # walk once it descends: a sub-directory whose `find -L` fails (looping link), non-directory tops
+    _d(_B, [_D("<0>"), _F("<0>/<1>"), _D("<0>/sub"), _F("<0>/sub/g"), _D("<0>/sub/deep"), ["rawlink", "<0>/sub/loop", "loop/x"],
+            _F("<3>"), ["rawlink", "dl", "nope"], ["symlink", "lf", "<3>", False]],
+       [{"op": "walk", "path": "<0>", "top_down": True, "follow_symlinks": True},
+        {"op": "walk", "path": "<0>", "top_down": False, "follow_symlinks": False},
+        {"op": "walk", "path": "<3>", "top_down": True, "follow_symlinks": False},
+        {"op": "walk", "path": "dl", "top_down": True, "follow_symlinks": True},
+        {"op": "walk", "path": "lf", "top_down": True, "follow_symlinks": False},
+        {"op": "walk", "path": "nx", "top_down": True, "follow_symlinks": False}]),
     _d(["b[ab]c", "File1", "data01", "README"], [_D("<0>"), _F("<0>/<1>"), _D("<2>"), _F("<2>/<1>")],
        [{"op": "glob", "path": "<0>", "pattern": "*"}, {"op": "glob", "path": "<2>", "pattern": "*"}]),
     # multi-byte contents around multiples of a small transferBufferSize (write_text / read_text / size / checksum)
